@@ -2,6 +2,7 @@
 import copyfam
 
 ASSUME = [
+    "model -> code conformance: the pattern lists of spec/CopyFilterMC.tla (quick: the 580 single-pattern lists, thorough: all 7308) are written by TLC with the algorithm model's written set; the real copy into an empty destination must write exactly that set",
     "three-way comparison per case: paths written by copy.Copy (destination minus pre-existing entries) = naive reference filter of spec/FilterRef.tla over library hit matrices = paths reported by fsutil.Walk with the same patterns",
     "explanation test for the known finding as in C10: a copied set that equals the reference built from the library's incremental matcher is classified 'explainedByIncrementalMatcher'",
     "ancestors created on demand (not selected themselves) must carry the source directory's mode, owner and xattrs",
